@@ -43,7 +43,12 @@ def _machine_cases(ck, tier, seed, tmp):
                 if line not in seen:
                     seen.add(line)
                     fo.write(line)
-    ck.extra["distinct_programs"] = len(seen)
+    # deep stacks: D pushes folded by D - 1 additions; every depth the machine supports (up to 1023 values) must give D
+    with open(allc, "a") as fo:
+        for d in (2, 3, 17, 255, 256, 600, 1000, 1019, 1020, 1021, 1022, 1023):
+            prog = [1, 1] * d + [6] * (d - 1) + [48]
+            fo.write(json.dumps({"prog": prog, "loads": True, "status": "finished", "ret": d, "note": "deep stack"}) + "\n")
+    ck.extra["distinct_programs"] = len(seen) + 12
     return allc
 
 
